@@ -23,10 +23,10 @@ func init() {
 	Specs["C12"] = &Spec{
 		Level: "proof",
 		Explanation: "Every row of every syscall table literal in arch/ is read from the type-checked source and compared by name with each vendored oracle of its ABI " +
-			"(x/sys v0.19.0 zsysnum, GOROOT syscall zsysnum, kernel UAPI unistd headers); every table is checked injective; the inversion helper, the Info literals " +
+			"(x/sys v0.19.0, v0.29.0 and v0.48.0 zsysnum, GOROOT syscall zsysnum, kernel UAPI unistd headers); every table is checked injective; the inversion helper, the Info literals " +
 			"(name / audit constant / table pairing), the audit constants (vs linux/audit.h and x/sys) and the alias map with GetInfo's dominance condition are decided structurally. " +
 			"Exhaustive over the literals; relative to the oracle files.",
-		Trusted: []string{"go/types constant evaluation", "go/ssa (x/tools v0.29.0)", "/verif/oracle/oracle.json (x/sys v0.19.0, GOROOT/src/syscall, /usr/include UAPI headers)"},
+		Trusted: []string{"go/types constant evaluation", "go/ssa (x/tools v0.29.0)", "/verif/oracle/oracle.json (x/sys v0.19.0/v0.29.0/v0.48.0, GOROOT/src/syscall, /usr/include UAPI headers)"},
 		Assumptions: []string{"rows that no oracle lists (counted in coverage.unlisted_rows) are not compared",
 			"map literal keys are distinct by the language (duplicate constant keys do not compile)"},
 		Run: runC12,
@@ -170,6 +170,50 @@ func runC12(e *Env) {
 	}
 	r.Floor("E4.inj(tables)", len(tabs), 5)
 	r.Floor("E4.rows", rows, 1950)
+	// E4.unified: since Linux 5.1 a new syscall gets one number on every architecture (424..511; 512..547 are x32's own).
+	// The tables are each other's independent source there: a number in that range carries the same name in every table
+	// that has it. This also reaches rows that are newer than every oracle on this machine.
+	{
+		byNum := map[int64]map[string][]string{}
+		for _, t := range tabs {
+			for _, row := range t.Rows {
+				if row.Val == nil || row.Key == nil {
+					continue
+				}
+				k, _ := constant.Int64Val(row.Key)
+				if k < 424 || k > 511 {
+					continue
+				}
+				if byNum[k] == nil {
+					byNum[k] = map[string][]string{}
+				}
+				n := constant.StringVal(row.Val)
+				byNum[k][n] = append(byNum[k][n], t.Obj.Name())
+			}
+		}
+		var nums []int64
+		for k := range byNum {
+			nums = append(nums, k)
+		}
+		sort.Slice(nums, func(i, j int) bool { return nums[i] < nums[j] })
+		bad := 0
+		for _, k := range nums {
+			if len(byNum[k]) > 1 {
+				bad++
+				var parts []string
+				for n, ts := range byNum[k] {
+					sort.Strings(ts)
+					parts = append(parts, fmt.Sprintf("%q in %s", n, strings.Join(ts, ",")))
+				}
+				sort.Strings(parts)
+				r.Bad("E4.unified", fmt.Sprintf("number/%d", k), "", fmt.Sprintf("syscall number %d, which the kernel assigns once for all architectures, has different names in the tables: %s", k, strings.Join(parts, "; ")))
+			}
+		}
+		if bad == 0 {
+			r.OK("E4.unified", "numbers-424-511", "", fmt.Sprintf("%d numbers of the architecture-independent range carry the same name in every table that lists them", len(nums)))
+		}
+		r.Floor("E4.unified(numbers)", len(nums), 20)
+	}
 	r.Count("syscall tables", len(tabs))
 	r.Count("table rows", rows)
 
